@@ -391,4 +391,33 @@ theorem src_threefish1024_decrypt_block_no_unroll (sk : List (List (BitVec 64)))
   simp only [Gen.Kernels.threefish1024_decrypt_block_no_unroll, e4, e1, List.append_assoc]
   rfl
 
+/-! ## phase 3: `NewBlockCipher::new`, the trait impls, the struct (tools/inventory_kernels_glue.py) -/
+
+/-- `NewBlockCipher::new(key)` = `Self::with_tweak(key, 0, 0)` -/
+theorem src_threefish256_new (key : List (BitVec 8)) :
+    Gen.Kernels.threefish256_new key = Gen.Kernels.threefish256_with_tweak key 0#64 0#64 := rfl
+theorem src_threefish512_new (key : List (BitVec 8)) :
+    Gen.Kernels.threefish512_new key = Gen.Kernels.threefish512_with_tweak key 0#64 0#64 := rfl
+theorem src_threefish1024_new (key : List (BitVec 8)) :
+    Gen.Kernels.threefish1024_new key = Gen.Kernels.threefish1024_with_tweak key 0#64 0#64 := rfl
+
+/-- `$name { sk }`, `#[derive(Clone, Copy)]` -/
+theorem src_threefish_structs :
+    Gen.Kernels.threefish_structs =
+      [("Threefish256", "struct", ["sk"], ["Clone", "Copy"], []),
+       ("Threefish512", "struct", ["sk"], ["Clone", "Copy"], []),
+       ("Threefish1024", "struct", ["sk"], ["Clone", "Copy"], [])] := rfl
+
+/-- the trait impls and the functions each DEFINES: `BlockEncrypt` only `encrypt_block`, `BlockDecrypt` only
+    `decrypt_block` (the slice / par-blocks methods are the provided ones of the `cipher` crate, which call these);
+    an override of a provided method (e.g. `decrypt_blocks`) changes this list -/
+theorem src_threefish_trait_impls :
+    Gen.Kernels.threefish_trait_impls =
+      [("Threefish256", "NewBlockCipher", ["new"]), ("Threefish256", "BlockCipher", []),
+       ("Threefish256", "BlockEncrypt", ["encrypt_block"]), ("Threefish256", "BlockDecrypt", ["decrypt_block"]),
+       ("Threefish512", "NewBlockCipher", ["new"]), ("Threefish512", "BlockCipher", []),
+       ("Threefish512", "BlockEncrypt", ["encrypt_block"]), ("Threefish512", "BlockDecrypt", ["decrypt_block"]),
+       ("Threefish1024", "NewBlockCipher", ["new"]), ("Threefish1024", "BlockCipher", []),
+       ("Threefish1024", "BlockEncrypt", ["encrypt_block"]), ("Threefish1024", "BlockDecrypt", ["decrypt_block"])] := rfl
+
 end CC.Src
